@@ -155,11 +155,8 @@ theorem relearn_spec (new : Net) (RL : List (α × RouterInfo)) :
 /-- `update_source_network` on a coherent cache -/
 theorem renumber_spec (c : Cache α) (old new : Net) (hc : Coherent c) :
     ∃ c', updateSourceNetwork c old new = .ok c' ∧ Coherent c' ∧
-      ∀ s' d', pget c' s' d' =
-        if old = new then pget c s' d'
-        else if s' = old then none
-        else if s' = new then (match pget c old d' with | some a => some a | none => pget c new d')
-        else pget c s' d' := by
+      ∀ s' d', pget c' s' d' = renumberMap (pget c) old new s' d' := by
+  simp only [renumberMap]
   unfold updateSourceNetwork
   cases hrs : aget old c.routers with
   | none =>
